@@ -22,6 +22,7 @@ import (
 	"sort"
 	"strconv"
 	"strings"
+	"sync"
 	"time"
 
 	"github.com/gorilla/mux"
@@ -242,7 +243,42 @@ func genKey(r *kit.Rng) string {
 	}
 }
 
-var envPool = []string{"prod", "staging", "dev", "my env", "ünï", "ds1", ""}
+var envPool = []string{"prod", "staging", "dev", "my env", "ünï", "ds1", "", "Production East"}
+
+// slugFor draws the slug the auth API reports next to an environment name: usually the lower-case,
+// dashed form (different from the name when it has capitals, spaces or non-ASCII letters),
+// sometimes the name itself, sometimes another environment's name, sometimes empty.
+func slugFor(r *kit.Rng, name string) string {
+	switch r.Pick(55, 15, 15, 15) {
+	case 0:
+		var b strings.Builder
+		for _, c := range strings.ToLower(name) {
+			switch {
+			case c >= 'a' && c <= 'z' || c >= '0' && c <= '9':
+				b.WriteRune(c)
+			case c == ' ' || c == '.':
+				b.WriteByte('-')
+			default:
+				b.WriteByte('x')
+			}
+		}
+		return b.String()
+	case 1:
+		return name
+	case 2:
+		return pick(r, []string{"prod", "dev", "ds1", "staging"})
+	}
+	return ""
+}
+
+func hasCtl(k string) bool {
+	for i := 0; i < len(k); i++ {
+		if k[i] < 0x20 || k[i] == 0x7f {
+			return true
+		}
+	}
+	return false
+}
 var dsPool = []string{"ds1", "ds2", "a.b", "prod", "b", "my ds", "\xff\xfe", "dev"}
 var prefixPool = []string{"", "", "pfx", "a", "P2", "prod", "ds1"} // validation: purely alphanumeric
 var plainFields = []string{"f1", "f2", "f3", "http.status", "meta.custom", "r", "rootx", "é"}
@@ -495,7 +531,11 @@ func (comp) Gen(r *kit.Rng, maxLen int, tier string) kit.Case {
 	type kenv struct{ key, env string }
 	var keys []kenv
 	for i := 0; i < 2+r.Intn(3); i++ {
-		keys = append(keys, kenv{genKey(r), pick(r, envPool)})
+		k := genKey(r)
+		for hasCtl(k) { // the key travels in an HTTP header to the auth API
+			k = genKey(r)
+		}
+		keys = append(keys, kenv{k, pick(r, envPool)})
 	}
 	name := func() string { // destination names: mostly ones that exist in the rules file
 		if len(c.samplers) > 0 && r.Chance(60) {
@@ -638,7 +678,7 @@ func (comp) Gen(r *kit.Rng, maxLen int, tier string) kit.Case {
 			}
 			path := []string{"msgp", "msgp", "json", "otlp"}[r.Intn(4)]
 			pl := genPayload(r, c, tid, allFields)
-			ops = append(ops, fmt.Sprintf("span %s %s %s %s %s", path, kit.Enc(key), envTok, kit.Enc(ds), encPayload(pl)))
+			ops = append(ops, fmt.Sprintf("span %s %s %s %s %s %s", path, kit.Enc(key), envTok, kit.Enc(ds), encPayload(pl), kit.Enc(slugFor(r, env))))
 		default:
 			if len(openOrder) == 0 {
 				if r.Chance(10) {
@@ -687,7 +727,8 @@ func (comp) NewCase(h []string) kit.Runner {
 		panic(err)
 	}
 	r.dir = dir
-	if err := os.WriteFile(filepath.Join(dir, "config.yaml"), c.mainYAML(), 0o600); err != nil {
+	mainY := append(c.mainYAML(), []byte("Network:\n  HoneycombAPI: "+jq(authStubURL())+"\n")...)
+	if err := os.WriteFile(filepath.Join(dir, "config.yaml"), mainY, 0o600); err != nil {
 		panic(err)
 	}
 	if err := os.WriteFile(filepath.Join(dir, "rules.yaml"), c.rulesYAML(), 0o600); err != nil {
@@ -711,7 +752,7 @@ func (comp) NewCase(h []string) kit.Runner {
 	r.peer = &transmit.MockTransmission{Capacity: 64}
 	r.peer.Start()
 	r.router = &route.Router{
-		Config: cfg, Logger: lg, Metrics: met,
+		Config: cfg, Logger: lg, Metrics: met, HTTPTransport: &http.Transport{},
 		UpstreamTransmission: r.up, PeerTransmission: r.peer,
 		Sharder:   &sharder.MockSharder{Self: &sharder.TestShard{Addr: "self"}},
 		Collector: r.mc,
@@ -738,6 +779,9 @@ func (comp) NewCase(h []string) kit.Runner {
 }
 
 func (r *runner) Close() {
+	if r.router != nil && r.router.HTTPTransport != nil {
+		r.router.HTTPTransport.CloseIdleConnections()
+	}
 	if r.dir != "" {
 		os.RemoveAll(r.dir)
 	}
@@ -851,15 +895,48 @@ func b01(b bool) string {
 	return "0"
 }
 
+// authStub is a stand-in for the Honeycomb API: GET /1/auth answers with the team, the environment
+// NAME and SLUG and the key id set for the current operation (or 401).
+var authStub struct {
+	sync.Mutex
+	srv        *httptest.Server
+	name, slug string
+	fail       bool
+}
+
+func authStubURL() string {
+	authStub.Lock()
+	defer authStub.Unlock()
+	if authStub.srv == nil {
+		authStub.srv = httptest.NewServer(http.HandlerFunc(func(w http.ResponseWriter, req *http.Request) {
+			authStub.Lock()
+			name, slug, fail := authStub.name, authStub.slug, authStub.fail
+			authStub.Unlock()
+			if req.URL.Path != "/1/auth" || fail {
+				w.WriteHeader(http.StatusUnauthorized)
+				return
+			}
+			b, _ := json.Marshal(map[string]any{
+				"api_key_access": map[string]bool{"events": true},
+				"team":           map[string]string{"slug": "the-team", "name": "The Team"},
+				"environment":    map[string]string{"slug": slug, "name": name},
+				"id":             "hcxik_keyid",
+			})
+			w.Header().Set("Content-Type", "application/json")
+			w.Write(b)
+		}))
+	}
+	return authStub.srv.URL
+}
+
 // ingest sends one event through a real ingestion path and returns the span the router handed to
 // the collector (nil if none), or a word describing what happened instead.
-func (r *runner) ingest(path, key, env string, envFails bool, ds string, pl []payEntry) (*types.Span, string) {
-	r.router.SetEnvironmentCache(time.Hour, func(k string) (string, error) {
-		if envFails {
-			return "", fmt.Errorf("lookup failed")
-		}
-		return env, nil
-	})
+func (r *runner) ingest(path, key, env, slug string, envFails bool, ds string, pl []payEntry) (*types.Span, string) {
+	// the environment comes from the router's own /1/auth lookup against the stub API
+	authStub.Lock()
+	authStub.name, authStub.slug, authStub.fail = env, slug, envFails
+	authStub.Unlock()
+	route.VerifSamplerselResetEnvCache(r.router) // no answers cached from earlier operations
 	r.mc.Flush()
 	switch path {
 	case "msgp", "json":
@@ -919,7 +996,11 @@ func (r *runner) Do(op []string) (string, bool) {
 			return "nosampler", true // the sampler factory exits the process on a nil config
 		}
 		envFails := op[3] == "!"
-		sp, what := r.ingest(op[1], kit.Dec(op[2]), kit.Dec(op[3]), envFails, kit.Dec(op[4]), decPayload(op[5]))
+		slug := ""
+		if len(op) > 6 {
+			slug = kit.Dec(op[6])
+		}
+		sp, what := r.ingest(op[1], kit.Dec(op[2]), kit.Dec(op[3]), slug, envFails, kit.Dec(op[4]), decPayload(op[5]))
 		if sp == nil {
 			return what, true
 		}
